@@ -769,7 +769,7 @@ class PairContext:
 # ------------------------------------------------------------------------------------------------
 MECHS = ["free", "pendulum", "double_pendulum", "slider", "pm_fixed_distance", "rigid_pair", "synth"]
 ATTACH = ["none", "gravity", "spring_h", "spring_c", "kelvin_voigt_c", "maxwell", "motor", "pd", "pid"]
-CONTACTS = ["none", "rest_mu0", "stick_mu", "slide_mu", "open_mu", "two_spheres", "accel_plane", "spin_offcentre"]
+CONTACTS = ["none", "rest_mu0", "stick_mu", "slide_mu", "open_mu", "two_spheres", "two_spheres_slide", "accel_plane", "spin_offcentre"]
 INITS = ["rest", "spin"]
 INCONSISTENT = ["joint_velocity", "position_offset", "penetration", "approaching", "s2s_penetration"]
 GRAV = 9.81
@@ -946,9 +946,11 @@ def build_c16(case):
         s2p = co.Sphere2Plane(plane, ball, mu=mu, r=rad, e_N=0.0, e_F=0.0, name="ball_plane", **kw)
         contr += [ball, fo.Force(np.array([0.0, 0.0, -mb * GRAV]) + ft, ball, name="ball_load"), s2p]
         mus["ball_plane"] = mu
-        if con == "two_spheres" or bad == "s2s_penetration":
+        if con in ("two_spheres", "two_spheres_slide") or bad == "s2s_penetration":
             z2 = z + 2 * rad - (0.01 if bad == "s2s_penetration" else 0.0)
-            ball2 = _rb(mb, [th, th, th], [2.0, -1.0, z2], [1.0, 0, 0, 0], name="ball2")
+            # sliding variant: the upper ball translates horizontally (two frictional contacts with different normal forces)
+            v2 = np.array([0.5, 0.2, 0.0]) if con == "two_spheres_slide" else None
+            ball2 = _rb(mb, [th, th, th], [2.0, -1.0, z2], [1.0, 0, 0, 0], v=v2, name="ball2")
             s2s = co.Sphere2Sphere(ball, ball2, rad, rad, mu=0.3, e_N=0.0, e_F=0.0, name="ball_ball")
             contr += [ball2, fo.Force(np.array([0.0, 0.0, -mb * GRAV]), ball2, name="ball2_load"), s2s]
             mus["ball_ball"] = 0.3
